@@ -120,7 +120,9 @@ proof {
 pub proof fn lemma_overshoot_is_line_end(s: Seq<char>, k: int, l: u32, c1: u32, c2: u32)
     requires 0 <= k < s.len(), line_of(s, k) == l, (s[k] == '\n' || s[k] == '\r'), no_stop(s, Position { line: l, character: c1 }, 0, k), c1 <= c2,
         no_stop(s, Position { line: l, character: c2 }, 0, k),
-    ensures char_of_pos(s, Position { line: l, character: c1 }, 0) == k, char_of_pos(s, Position { line: l, character: c2 }, 0) == k, //# lemma_overshoot_is_line_end
+    ensures
+        char_of_pos(s, Position { line: l, character: c1 }, 0) == k, //# lemma_overshoot_is_line_end::first
+        char_of_pos(s, Position { line: l, character: c2 }, 0) == k, //# lemma_overshoot_is_line_end::same_place
 {
     lemma_first_stop(s, Position { line: l, character: c1 }, 0, k);
     lemma_first_stop(s, Position { line: l, character: c2 }, 0, k);
